@@ -291,10 +291,12 @@ deriving DecidableEq, Repr
 def safeAux (written : List Nat) : List Acc → Bool
   | [] => true
   | .wr f :: rest => safeAux (f :: written) rest
-  | .rd .out _ :: rest => safeAux written rest
+  | .rd .out f :: rest => written.contains f && safeAux written rest
   | .rd _ f :: rest => !written.contains f && safeAux written rest
 
-/-- no input field is read after the same-named output field was written -/
+/-- no input field is read after the same-named output field was written, and an output field is only
+read back after the body wrote it (otherwise a distinct output would be read uninitialised while an
+aliased one holds the input's value) -/
 def safe (body : List Acc) : Bool := safeAux [] body
 
 /-- a symbolic value: the list of original input cells `(0 = from | 1 = to, field)` it depends on -/
